@@ -142,3 +142,13 @@ Theorem C02_dt_frame_touches_one_session : forall prio sa dest data now m s' sa'
   (forall h, tget (f_snd (fnode22 (process_tp_dt22 prio sa dest data now m))) h = tget (f_snd m) h).
 Proof. exact fd_other_sessions_untouched_by_dt. Qed.
 Print Assumptions C02_dt_frame_touches_one_session.
+
+From J1939 Require Import SkelDefs FlowDefs.
+From J1939.gen Require Import SkelGen.
+From J1939P Require Import FlowProofs OrderProofs.
+
+(* state before send on the FD layer (generated skeletons): the send session is stored before the RTS, the session record
+   updated before each FD data frame / end-of-message status *)
+Theorem C02_state_before_send : never_commits_after_send order_send22 /\ never_commits_after_send order_burst22.
+Proof. split; [exact order_send22_ok|exact order_burst22_ok]. Qed.
+Print Assumptions C02_state_before_send.
